@@ -1173,3 +1173,17 @@ def bounds_of(r):
     if n == 'RangeToInclusive': return None, (r.fields[0], True), None
     if n == 'RangeFull': return None, None, None
     raise Unsupported('range bounds of %r' % (r,))
+
+
+@model('core::slice::<impl [T]>::split_first')
+def _split_first(it, a, c):
+    l = seq(a[0])
+    if not l: return NONE()
+    return SOME(Agg('tuple', [Ref(l, 0), Ref([VecV(l[1:])], 0)]))
+
+
+@model('core::slice::<impl [T]>::split_last')
+def _split_last(it, a, c):
+    l = seq(a[0])
+    if not l: return NONE()
+    return SOME(Agg('tuple', [Ref(l, len(l) - 1), Ref([VecV(l[:-1])], 0)]))
